@@ -356,8 +356,12 @@ def r12_2(ctx, m):
     for s_ in inits:
         vals = s_.value.elts if isinstance(s_.value, ast.Tuple) else [s_.value]
         for v in vals:
-            zero = const_value(v, 1) == 0 or (isinstance(v, ast.Call) and norm(v.func) == "dict.fromkeys" and len(v.args) == 2 and const_value(v.args[1], 1) == 0) or (isinstance(v, ast.DictComp) and const_value(v.value, 1) == 0)
+            zero = const_value(v, 1) == 0 or (isinstance(v, ast.Call) and norm(v.func) == "dict.fromkeys" and len(v.args) == 2 and const_value(v.args[1], 1) == 0) or (isinstance(v, ast.DictComp) and const_value(v.value, 1) == 0) or (isinstance(v, ast.Dict) and v.keys and all(k_ is not None and const_value(x_, 1) == 0 for k_, x_ in zip(v.keys, v.values)))
             ok_init = ok_init and zero
+    if not inits:
+        outside = [s for s in walk_stmts(wf.node.body) if isinstance(s, ast.Assign) and base10 in norm(s.targets[0]).replace("(", "").replace(")", "").split(", ") and not any(x is s for x in ast.walk(loop))]
+        if not outside:
+            raise AnalysisError("R12.2", wf.where(loop), f"cannot find where the tally `{base10}` is initialised")
     ctx.check(ok_init, "R12.2", wf.where(loop), "the tallies are reset to 0 for every record", key_of(wf, "tally-reset"))
 
 
